@@ -459,10 +459,26 @@ class Inliner:
             return None
         callee, skip = r[0], r[1]
         prepare = r[2] if len(r) > 2 else None
-        if callee.name in stack:
+        is_super = isinstance(call.func, ast.Attribute) and isinstance(call.func.value, ast.Call) and u(call.func.value.func) == "super"
+        if callee.name in stack and not is_super:        # (super().m() inside m ascends the MRO: no recursion)
             return None
-        if _contains(callee, (ast.Yield, ast.YieldFrom, ast.Await)) or callee.args.vararg:
+        if _contains(callee, (ast.Yield, ast.YieldFrom, ast.Await)):
             return None
+        if callee.args.vararg:
+            # f(a, *rest) called as f(x, *ys): rest is ys (one starred argument in last position, nothing else for the vararg)
+            npos = len(callee.args.posonlyargs + callee.args.args) - (1 if skip else 0)
+            if not (len(call.args) == npos + 1 and isinstance(call.args[-1], ast.Starred) and not any(isinstance(a, ast.Starred) for a in call.args[:-1])):
+                return None
+            star_val = call.args[-1].value
+            if not isinstance(star_val, ast.Name):
+                return None
+            vname = callee.args.vararg.arg
+            callee = copy.copy(callee)
+            callee.args = copy.copy(callee.args)
+            callee.args.vararg = None
+            call = copy.copy(call)
+            call.args = list(call.args[:-1])
+            callee.body = [norm._Rename({vname: star_val.id}).visit(copy.deepcopy(x)) for x in callee.body]
         if any(isinstance(n, (ast.Global, ast.Nonlocal)) for n in ast.walk(callee)):
             return None
         kw_map = None
@@ -501,7 +517,9 @@ class Inliner:
             ren[kw_map[0]] = kw_map[1]
         body = [norm._Rename(ren).visit(s) for s in body]
         body = [norm._Subst(dict(mapping)).visit(s) for s in body]
-        if skip and isinstance(call.func, ast.Attribute) and not (isinstance(call.func.value, ast.Name) and call.func.value.id == "self"):
+        if skip and isinstance(call.func, ast.Attribute) and isinstance(call.func.value, ast.Call) and u(call.func.value.func) == "super":
+            pass        # super().m(..): the receiver is self itself
+        elif skip and isinstance(call.func, ast.Attribute) and not (isinstance(call.func.value, ast.Name) and call.func.value.id == "self"):
             selfname = (callee.args.posonlyargs + callee.args.args)[0].arg
             body = [norm._Subst({selfname: call.func.value}).visit(s) for s in body]
 
@@ -690,14 +708,51 @@ class Inliner:
         me = self
 
         class X(ast.NodeTransformer):
+            cond = 0        # > 0 inside a conditionally / repeatedly evaluated position (where hoisting into a statement is impossible)
+
             def visit_Call(self, n):
                 self.generic_visit(n)
-                if n is top:
+                if n is top or self.cond == 0:
+                    # evaluated exactly once with the statement: a branching / refusing helper is hoisted and inlined as statements
                     r = me.lookup(n)
-                    if r is not None and _contains(r[0], (ast.If, ast.Raise, ast.Try, ast.For, ast.While)):
-                        return n
+                    if r is not None and _contains(r[0], (ast.If, ast.Raise, ast.Try, ast.For, ast.While)) and not _contains(r[0], (ast.Yield,)):
+                        return n            # (a generator helper is lazy: it can only become a generator expression)
                 v = me.expr_value(n, d, stack)
                 return v if v is not None else n
+
+            def visit_IfExp(self, n):
+                n.test = self.visit(n.test)
+                self.cond += 1
+                n.body, n.orelse = self.visit(n.body), self.visit(n.orelse)
+                self.cond -= 1
+                return n
+
+            def visit_BoolOp(self, n):
+                n.values[0] = self.visit(n.values[0])
+                self.cond += 1
+                n.values[1:] = [self.visit(v) for v in n.values[1:]]
+                self.cond -= 1
+                return n
+
+            def visit_Lambda(self, n):
+                self.cond += 1
+                n.body = self.visit(n.body)
+                self.cond -= 1
+                return n
+
+            def _comp(self, n):
+                n.generators[0].iter = self.visit(n.generators[0].iter)
+                self.cond += 1
+                for i_, g in enumerate(n.generators):
+                    if i_:
+                        g.iter = self.visit(g.iter)
+                    g.ifs = [self.visit(x) for x in g.ifs]
+                for f_ in ("elt", "key", "value"):
+                    if hasattr(n, f_):
+                        setattr(n, f_, self.visit(getattr(n, f_)))
+                self.cond -= 1
+                return n
+            visit_ListComp = visit_SetComp = visit_DictComp = visit_GeneratorExp = _comp
 
             def visit_FunctionDef(self, n):
                 return n
@@ -1452,7 +1507,7 @@ class Canon:
         known = known_defs()
         return name.startswith("_") and not name.startswith("__") and not any(f"{b_.name}.{name}" in known for b_ in cls.mro)
 
-    def _lookup(self, module, cls, fn, inline: set[str], keep: set[str], accessors: bool = False):
+    def _lookup(self, module, cls, fn, inline: set[str], keep: set[str], accessors: bool = False, supers: bool = False):
         known = known_defs()
         nested = {n.name: n for n in ast.walk(fn) if isinstance(n, ast.FunctionDef) and n is not fn}
 
@@ -1470,6 +1525,17 @@ class Canon:
 
         def lookup(call):
             f = call.func
+            if supers and cls is not None and isinstance(f, ast.Attribute) and isinstance(f.value, ast.Call) and u(f.value.func) == "super" and not f.value.args:
+                # super().m(..) inside a method defined in class D: the next definition of m after D along the receiver's MRO
+                owner = next((k_ for k_ in cls.mro if fn in k_.methods.values()), None)
+                if owner is not None and owner in cls.mro:
+                    for k_ in cls.mro[cls.mro.index(owner) + 1:]:
+                        if f.attr in k_.methods:
+                            m_ = k_.methods[f.attr]
+                            if not any(u(d) in ("property", "staticmethod", "classmethod", "cached_property") for d in m_.decorator_list):
+                                return m_, True, prep
+                            break
+                return None
             if isinstance(f, ast.Attribute) and isinstance(f.value, ast.Name) and (
                     (f.value.id == "self" and cls is not None) or f.value.id in local_types):
                 k = cls if f.value.id == "self" else local_types[f.value.id]
@@ -1635,10 +1701,10 @@ class Canon:
                 return node
         return [L().visit(s) for s in stmts]
 
-    def body(self, fn: ast.FunctionDef, module, cls=None, inline=(), keep=(), subst=True, accessors=False) -> list[ast.stmt]:
+    def body(self, fn: ast.FunctionDef, module, cls=None, inline=(), keep=(), subst=True, accessors=False, supers=False) -> list[ast.stmt]:
         """accessors=True: read-only one-line methods called on typed parameters / locals are seen through as well
         (`hugr.num_out_ports(n)` is `hugr[n]._num_outs`): for rules that compare what is read, not how it is spelled"""
-        key = (id(fn), tuple(sorted(inline)), tuple(sorted(keep)), subst, accessors)
+        key = (id(fn), id(cls), tuple(sorted(inline)), tuple(sorted(keep)), subst, accessors, supers)
         if key in self.cache and fn.name != "_module_level_":       # (synthetic functions are short-lived: their id can be reused)
             return self.cache[key]
         b = [copy.deepcopy(s) for s in real_body(fn)]
@@ -1653,7 +1719,7 @@ class Canon:
         b = lower_matches(b, self._match_args(module, fn))
         b = lift_ifexp(b)
         b = lift_walrus(b)
-        look = self._lookup(module, cls, fn, set(inline), set(keep), accessors)
+        look = self._lookup(module, cls, fn, set(inline), set(keep), accessors, supers)
         from .genloop import inline_generator_loops, inline_guard_helpers
         b = inline_generator_loops(b, look)       # loops over unknown generator helpers: the helper's loop with the body at its yield
         b = inline_guard_helpers(b, look)         # if not helper(..): raise ..  with a boolean helper that returns from inside a loop
@@ -1668,6 +1734,7 @@ class Canon:
         b = [s for s in b if not (isinstance(s, ast.FunctionDef) and s.name not in used)]
         b = norm.unroll_literal_loops(b)
         b = norm.map_pushdown(norm.extend_to_augassign(b), pure_calls=_PURE_EXT)
+        b = norm.fold_none_tests(b)             # `if count is not None` on a count a helper just computed
         b = self.call_layout(b, module, cls)
         b = polarity(b)
         b = or_default(b)
